@@ -67,10 +67,20 @@ fn check(id: &str, tier: &str) -> i32 {
         }
     }
 
+    // child side of the whole-run fallback below: report the unlisted violation signatures of this (single-threaded) run and nothing else
+    if std::env::var("LC3MC_CHILD").as_deref() == Ok("sigs") {
+        let sigs: std::collections::BTreeSet<&String> = unknown.iter().map(|v| &v.sig).collect();
+        for s in sigs { println!("SIG {s}"); }
+        return 0;
+    }
+
     // ---- replay discipline: every reported violation must reproduce identically twice
     // non-vacuity assertions are only meaningful on a run without violations (a violation legitimately cuts exploration short)
     let mut machinery = if unknown.is_empty() { report.machinery_errors.clone() } else { vec![] };
     let mut replay_paths: Vec<(String, String)> = vec![];
+    // violations that do not reproduce identically when their case is executed alone: never reported as violations. If other violations of
+    // the same run do reproduce, the run's verdict rests on those (and these are listed on stderr); if none does, the run is a machinery error.
+    let mut unreproduced: Vec<String> = vec![];
     if !unknown.is_empty() {
         let dir = format!("{VERIF}/replays/{id}");
         let _ = std::fs::create_dir_all(&dir);
@@ -87,8 +97,8 @@ fn check(id: &str, tier: &str) -> i32 {
                 // machinery fault. For every other property a diverging replay means the harness does not own its nondeterminism.
                 let history_dependent = id == "C31" && (!same || matches!(r1, Ok(None)));
                 if !history_dependent {
-                    if !same { machinery.push(format!("replay diverged for sig={} case={}", v.sig, v.case)); continue; }
-                    if matches!(r1, Ok(None)) { machinery.push(format!("violation did not reproduce on replay: sig={} case={}", v.sig, v.case)); continue; }
+                    if !same { unreproduced.push(format!("replay diverged for sig={} case={}", v.sig, v.case)); continue; }
+                    if matches!(r1, Ok(None)) { unreproduced.push(format!("violation did not reproduce on replay: sig={} case={}", v.sig, v.case)); continue; }
                 }
             }
             let path = format!("{dir}/{n}.json");
@@ -99,6 +109,30 @@ fn check(id: &str, tier: &str) -> i32 {
             let _ = std::fs::write(&path, j.render());
             replay_paths.push((v.sig.clone(), path));
         }
+    }
+
+    if !unreproduced.is_empty() {
+        if replay_paths.is_empty() {
+            // No violation reproduces when its case is executed alone: the verdicts depend on what ran before them in this process (state the
+            // subject keeps across calls). Whole-run fallback: the entire check is executed twice more, single-threaded (a fixed order of
+            // cases), each in a fresh process; if both runs report the same non-empty set of violation signatures, that whole run is the
+            // replayable counterexample. Anything else stays a machinery error.
+            match whole_run_sigs(id, tier).and_then(|a| whole_run_sigs(id, tier).map(|b| (a, b))) {
+                Some((a, b)) if a == b && !a.is_empty() => {
+                    let dir = format!("{VERIF}/replays/{id}"); let _ = std::fs::create_dir_all(&dir);
+                    let path = format!("{dir}/whole-run.json");
+                    let j = Json::Obj(vec![("property".into(), Json::s(id)), ("tier".into(), Json::s(tier)), ("sig".into(), Json::s(a.iter().next().map(|x| x.as_str()).unwrap_or(""))), ("case".into(), Json::s(format!("fullrun:{tier}"))),
+                        ("detail".into(), Json::s(format!("the violations of this check do not reproduce when their cases are executed alone (the subject keeps state across calls); executing the whole check single-threaded in a fresh process, twice, reports the same signatures both times: {a:?}")))]);
+                    let _ = std::fs::write(&path, j.render());
+                    eprintln!("note: no violation reproduced in isolation ({} tried); the whole single-threaded run reproduces {a:?} twice and is the counterexample", unreproduced.len());
+                    unknown.retain(|v| a.contains(&v.sig));
+                    if unknown.is_empty() { unknown.push(Violation { sig: a.iter().next().cloned().unwrap_or_default(), case: format!("fullrun:{tier}"), detail: "see the whole-run replay file".into() }); }
+                    replay_paths.push((a.iter().next().cloned().unwrap_or_default(), path));
+                }
+                _ => machinery.extend(unreproduced.iter().cloned()),
+            }
+        }
+        else { for u in &unreproduced { eprintln!("note: not counted ({u}); the verdict rests on the {} violation(s) that reproduce in isolation", replay_paths.len()); } unknown.retain(|v| replay_paths.iter().any(|(s, _)| *s == v.sig)); }
     }
 
     // ---- evidence
@@ -171,6 +205,16 @@ fn isolated_child(id: &str, case: &str) -> i32 {
     }
     0
 }
+/// Executes the whole check for `id` in a fresh process, single-threaded and without a wall cap, and returns its unlisted violation signatures.
+fn whole_run_sigs(id: &str, tier: &str) -> Option<std::collections::BTreeSet<String>> {
+    if std::env::var("LC3MC_CHILD").is_ok() { return None; }
+    let exe = std::env::current_exe().ok()?;
+    let out = std::process::Command::new(exe).args(["check", id, tier])
+        .env("LC3MC_CHILD", "sigs").env("VERIF_THREADS", "1").env("VERIF_CAP_S", "100000").env("LC3MC_EVIDENCE_DIR", format!("{VERIF}/replays/{id}/whole-run-evidence"))
+        .output().ok()?;
+    if !out.status.success() { return None; }
+    Some(String::from_utf8_lossy(&out.stdout).lines().filter_map(|l| l.strip_prefix("SIG ")).map(|s| s.to_string()).collect())
+}
 fn truncate(s: &str, n: usize) -> String {
     if s.len() <= n { s.to_string() } else { let mut e = n; while !s.is_char_boundary(e) { e -= 1; } format!("{}…", &s[..e]) }
 }
@@ -180,6 +224,14 @@ fn replay(path: &str) -> i32 {
     let Some(j) = Json::parse(&txt) else { eprintln!("bad json in {path}"); return 2; };
     let (Some(id), Some(case)) = (j.get("property").and_then(|x| x.as_str()), j.get("case").and_then(|x| x.as_str())) else { eprintln!("missing fields"); return 2; };
     let Some(&(_, entry)) = props::ALL.iter().find(|(i, _)| *i == id) else { eprintln!("unknown property {id}"); return 2; };
+    if let Some(tier) = case.strip_prefix("fullrun:") {
+        // whole-run counterexample (see check()): the whole check, single-threaded, twice
+        return match (whole_run_sigs(id, tier), whole_run_sigs(id, tier)) {
+            (Some(a), Some(b)) if a == b && !a.is_empty() => { println!("replay {id}: the whole single-threaded run reports {a:?} (twice)"); println!("VIOLATION property={id} replay={path}"); 1 }
+            (Some(a), Some(b)) if a.is_empty() && b.is_empty() => { println!("replay {id}: the whole run holds (no violation)"); 0 }
+            _ => { eprintln!("MACHINERY ERROR: whole-run replay diverged"); 2 }
+        };
+    }
     let iso = case.starts_with("iso:");
     let r1 = if iso { isolated(id, case) } else { catch(|| (entry.replay)(case)) };
     let r2 = if iso { isolated(id, case) } else { catch(|| (entry.replay)(case)) };
